@@ -932,7 +932,9 @@ func (broker *Broker) startSend(wg *sync.WaitGroup) {
 			// has changed and remove the ones that have
 			for _, binned := range payload.GetParts() {
 				file := broker.Conf.Cache.Get(binned.GetName())
-				if file == nil {
+				if file == nil || file.GetHash() != binned.GetFileHash() {
+					// (the cache may already describe a newer version of
+					// the file; this part belongs to the one it replaced)
 					payload.Remove(binned)
 					continue
 				}
